@@ -169,12 +169,45 @@ class FrpProp(Prop):
             return "no specification output"
         if any("illegal" in x for x in mo):
             return None     # not a legal program (instantaneous cycle): nothing is specified
+        mo_full = mo
+        mo = strip_ann(mo)
         if io2 == mo:
-            return None
+            return self.update_log_agree(lines, mo_full, io)
         k = next((j for j, (x, y) in enumerate(zip(mo, io2)) if x != y), min(len(mo), len(io2)))
         return "line %d (%s): specified %r (or another allowed order of deferred transactions, none of which matches), observed %r" % (
             k + 1, lines[k] if k < len(lines) else "?", mo[k] if k < len(mo) else None,
             io2[k] if k < len(io2) else None)
+
+    def update_log_agree(self, lines, mo, io):
+        """the operational characterisation proved for the engine model (Refine: an update closure runs in a transaction
+        iff one of its instantaneous dependencies fired, once, after its dependencies) evaluated on the implementation's
+        real update log, for the definitions whose node is the definition's own node"""
+        dropped = set()
+        aliases = {}
+        for k, (m, o) in enumerate(zip(mo, io)):
+            w = lines[k].split() if k < len(lines) else []
+            if w and w[0] == "drop":
+                dropped.add(w[1])
+            if w and w[0] == "clone":
+                aliases[w[2]] = aliases.get(w[1], w[1])
+            am = anns(m)
+            if "uc" not in am:
+                continue
+            comp = set(x for x in am["uc"].split(",") if x) - dropped
+            exp = set(x for x in am.get("ue", "").split(",") if x) - dropped
+            got_l = [aliases.get(x, x) for x in anns(o).get("u", "").split(",") if x]
+            got = set(got_l) & comp
+            held = set(x for x in comp)     # slots whose handle the harness still holds can be observed
+            if any(x in aliases for x in dropped):
+                continue
+            if got != exp & held:
+                return ("HIDDEN: line %d (%s): update closures ran for definitions %s, the engine model prescribes %s (a closure runs iff one "
+                        "of its instantaneous dependencies fired)" % (k + 1, lines[k] if k < len(lines) else "?",
+                                                                     sorted(got, key=int), sorted(exp, key=int)))
+            seen = [x for x in got_l if x in comp]
+            if len(seen) != len(set(seen)):
+                return "HIDDEN: line %d (%s): an update closure ran twice in one transaction: %s" % (k + 1, lines[k], seen)
+        return None
 
     def nontrivial(self, batch, name, lines, out):
         return any(("L" in o and "=[" in o) or o.startswith("sample") for o in out)
